@@ -50,7 +50,8 @@ func c06SeedB() []*ketoapi.RelationTuple {
 		axSet("n2", "b", "s", "n1", "a", ""),
 		axID("n2", "a", "r", "secretB"),
 		axSet("n1", "a", "s", "n1", "a", "r"),
-		axID("n1", "a", "r", "x"), // a duplicate
+		axID("n1", "a", "r", "x"),                  // a duplicate
+		axSet("n2", "secretB", "s", "n1", "g", ""), // a subject set WITHOUT relation (Zanzibar's "..." in other spellings)
 	}
 }
 
@@ -306,7 +307,9 @@ func c06Explore(t *testing.T, run *ev.Run, maxDepth int, final bool) {
 		ca := c06ClientA(s)
 		s.Tap.StartLog()
 		var raw strings.Builder
-		for _, q := range []*ketoapi.RelationQuery{{Object: axS("bOnly")}, {SubjectID: axS("secretB")}, {SubjectSet: &ketoapi.SubjectSet{Namespace: "n1", Object: "bOnly", Relation: "r"}}, {Namespace: axS("n1")}, {}} {
+		for _, q := range []*ketoapi.RelationQuery{{Object: axS("bOnly")}, {SubjectID: axS("secretB")}, {SubjectSet: &ketoapi.SubjectSet{Namespace: "n1", Object: "bOnly", Relation: "r"}}, {Namespace: axS("n1")}, {},
+			// special spellings of "no relation" in a subject set
+			{SubjectSet: &ketoapi.SubjectSet{Namespace: "n1", Object: "g", Relation: "..."}}, {SubjectSet: &ketoapi.SubjectSet{Namespace: "n1", Object: "g", Relation: ""}}, {SubjectSet: &ketoapi.SubjectSet{Namespace: "n1", Object: "g", Relation: "*"}}} {
 			lr := axListREST(ca, q, 0)
 			lg := axListGRPC(ca, q, 3)
 			fmt.Fprintf(&raw, "%s %s %s %s\n", c06SortedKeys(lr.Multiset), lr.Err, c06SortedKeys(lg.Multiset), lg.Err)
